@@ -70,6 +70,7 @@ func cmdVerify(args []string) {
 	out := fs.String("out", "", "scratch directory for SMT files")
 	keep := fs.Bool("v", false, "print discharged obligations too")
 	sweep := fs.Bool("sweep", false, "functions without a contract are checked for safety only")
+	frames := fs.String("frames", "", "comma separated callee-name substrings assumed to modify nothing (assume_frames)")
 	fs.Parse(args)
 	rest := fs.Args()
 	if len(rest) < 2 {
@@ -87,6 +88,9 @@ func cmdVerify(args []string) {
 	}
 	V := newVerifier(P, C)
 	V.Sweep = *sweep
+	if *frames != "" {
+		V.AssumeFrames = strings.Split(*frames, ",")
+	}
 	var fns []*ssa.Function
 	for _, k := range rest[1:] {
 		f := P.lookupFunc(k)
